@@ -759,7 +759,7 @@ class XPathToken(Token[ta.XPathTokenType]):
             if timezone is not None:
                 try:
                     timezone = Timezone.fromduration(timezone)
-                except ValueError as err:
+                except (ValueError, OverflowError) as err:
                     if isinstance(context, XPathSchemaContext):
                         timezone = Timezone.fromduration(DayTimeDuration(0))
                     else:
